@@ -788,6 +788,9 @@ def check_C01(ctx):
     ctx.validate(ctx.run_cases(scal, deadline=30, workers=4), module="TraceC01", nontrivial_key=lambda o: o.get("text", ""))
     pairs = ctx.gen("weirdpairs", 53 * 53 * 22)
     ctx.validate(ctx.run_cases(pairs, deadline=30), module="TraceC01", nontrivial_key=lambda o: o.get("text", ""))
+    # every binding asked for properties it has and lacks (by dot, by subscript, through contains)
+    props_ = ctx.gen("weirdprops", 200 * 16 * 4)
+    ctx.validate(ctx.run_cases(props_, deadline=30), module="TraceC01", nontrivial_key=lambda o: o.get("text", ""))
     progs = ctx.gen("prog", 2000 if ctx.quick else 30000)
     for g in progs:
         g["weird"] = True
